@@ -154,6 +154,7 @@ func verifHarness_C17_NaiveInputRoot() {
 	const (
 		hRoot = "00000000000000000000000000000000000000000000000000000000000000aa"
 		hSub  = "00000000000000000000000000000000000000000000000000000000000000bb"
+		hSub2 = "00000000000000000000000000000000000000000000000000000000000000bd"
 		hLeaf = "00000000000000000000000000000000000000000000000000000000000000cc"
 		hF1   = "00000000000000000000000000000000000000000000000000000000000000f1"
 		hF2   = "00000000000000000000000000000000000000000000000000000000000000f2"
@@ -169,7 +170,7 @@ func verifHarness_C17_NaiveInputRoot() {
 	// possibly the same name twice), one or two files, one symlink.
 	nDirs := rt.Choose(3)
 	for k := 0; k < nDirs; k++ {
-		root.Directories = append(root.Directories, &remoteexecution.DirectoryNode{Name: dirNames[rt.Choose(len(dirNames))], Digest: &remoteexecution.Digest{Hash: hSub, SizeBytes: 10}})
+		root.Directories = append(root.Directories, &remoteexecution.DirectoryNode{Name: dirNames[rt.Choose(len(dirNames))], Digest: &remoteexecution.Digest{Hash: []string{hSub, hSub2}[rt.Choose(2)], SizeBytes: 10}})
 	}
 	nFiles := rt.Choose(3)
 	for k := 0; k < nFiles; k++ {
@@ -186,7 +187,9 @@ func verifHarness_C17_NaiveInputRoot() {
 		Files:       []*remoteexecution.FileNode{{Name: "a", Digest: &remoteexecution.Digest{Hash: hF2, SizeBytes: 5}, IsExecutable: true}},
 		Directories: []*remoteexecution.DirectoryNode{{Name: "empty", Digest: &remoteexecution.Digest{Hash: hLeaf, SizeBytes: 0}}},
 	}
-	df := &verifC17_naiveDirectoryFetcher{directories: map[string]*remoteexecution.Directory{hRoot: root, hSub: sub, hLeaf: {}}}
+	df := &verifC17_naiveDirectoryFetcher{directories: map[string]*remoteexecution.Directory{hRoot: root, hSub: sub, hLeaf: {}, hSub2: {
+		Files: []*remoteexecution.FileNode{{Name: "z", Digest: &remoteexecution.Digest{Hash: hF1, SizeBytes: 5}}},
+	}}}
 	ff := &verifC17_naiveFileFetcher{}
 	switch rt.Choose(3) {
 	case 1:
@@ -211,7 +214,11 @@ func verifHarness_C17_NaiveInputRoot() {
 		duplicate = duplicate || seen[e.Name]
 		seen[e.Name] = true
 	}
-	storageFails := (df.failOn != "" && nDirs > 0) || (ff.fail && (nFiles > 0 || nDirs > 0))
+	usesSub := false
+	for _, e := range root.Directories {
+		usesSub = usesSub || e.Digest.Hash == hSub
+	}
+	storageFails := (df.failOn != "" && usesSub) || (ff.fail && (nFiles > 0 || nDirs > 0))
 
 	stats := &verifC17_fsStats{}
 	rootNode := &verifC17_fsNode{kind: 1, children: map[string]*verifC17_fsNode{}}
@@ -224,7 +231,7 @@ func verifHarness_C17_NaiveInputRoot() {
 		rt.Assert(!storageFails, "a storage failure while populating the input root surfaces as an error")
 		verifC17_matches(df, hRoot, rootNode)
 		rt.Cover("naive:ok")
-		if nDirs == 2 {
+		if nDirs == 2 && root.Directories[0].Digest.Hash == root.Directories[1].Digest.Hash {
 			rt.Cover("naive:ok-shared-subtree")
 		}
 	} else {
